@@ -102,14 +102,15 @@ def gen_readers(rng, n):
 
 def gen_float_conversions(rng, n):
     for _ in range(6 * n):
-        k = rng.choice([8, 32])
+        k = rng.choice([16, 32])
         vs = [C01.recv(rng, prec=34), C01.recv(rng, prec=34)]
-        for _ in range(8):
+        nops = 48
+        for _ in range(nops):
             c = common.rand_coeff(rng, rng.choice([5, 17, 30]))
             vs.append(fin(c, rng.choice([1, -1]) * rng.randint(28, 320), neg=rng.randint(0, 1)))
         rops = []
-        for a in range(2, 10):
-            rops.append(rng.choice(["Float64 %d" % a, "Float64 %d" % a, "Text %d 101 -1" % a]))
+        for a in range(2, 2 + nops):
+            rops.append(rng.choice(["Float64 %d" % a, "Float64 %d" % a, "Float64 %d" % a, "Text %d 101 -1" % a]))
         ops = ["Cmp 2 3", "Add 0 2 3"]
         line = "P 2 %d %d %d %d ; " % (k, rng.choice([4, 16]), rng.choice([2, 4]), rng.randint(0, 1)) + " ; ".join([v.item() for v in vs] + ["O " + o for o in ops] + ["R " + o for o in rops])
         yield dict(family="shared-float-conversions-k%d" % k, vars=vs, ops=ops, line=line, big=True)
